@@ -30,10 +30,12 @@ def oracle_rule(meth, n, a, b, x, w):
     mid, half = 0.5 * (a + b), 0.5 * L
     t = (x - mid) / half
     deg = min(DEGREE[meth](n), 40)
+    # the nodes carry an absolute rounding error ~ eps*max(|a|,|b|); in the scaled variable that is eps*max(|a|,|b|)/half
+    tolk = 2e-10 + 4e-15 * max(abs(a), abs(b)) / half
     for k in range(deg + 1):
         exact = 0.0 if k % 2 else 2.0 / (k + 1)
         got = float(np.sum(w / half * t ** k))
-        if abs(got - exact) > 2e-10:
+        if abs(got - exact) > tolk * (1 + k):
             bad.append("exact for degree %d (got %.3e, want %.3e)" % (k, got, exact))
             break
     return bad
